@@ -715,7 +715,7 @@ func init() {
 	register(&Property{
 		ID:    "C07",
 		Level: "other",
-		Rules: []Rule{{"E1", ruleE1}, {"E3", ruleE3}, {"E3b", ruleE3b}, {"E4", ruleE4}, {"O3", ruleO3}, {"E5", ruleE5}, {"O3c", ruleO3c}},
+		Rules: []Rule{{"E1", ruleE1}, {"E3", ruleE3}, {"E3b", ruleE3b}, {"E4", ruleE4}, {"O3", ruleO3}, {"E5", ruleE5}, {"O3c", ruleO3c}, {"W1", ruleW1}},
 		Explanation: "E1/E2: at every call site in the library (reachable from an exported API) of a function that can fail through the file or an error-returning store callback — and at every file sink and such callback itself — a path-sensitive exploration follows every path on which the error may be non-nil and requires that it reaches the caller (returned as is, wrapped, or stored into a captured variable / field that the enclosing API returns or exposes) before any PUBLISH, MAP-PUBLISH, Store.size write or file write, and without going round a loop; a discarded error is accepted only as the cached re-read idiom. E3: in SetItem and Delete every exit that does not publish after a marking tree operation clears the reclaim marks left on the still-current version. Decides the 'reported, never swallowed' clause and the structural part of 'changes nothing'; does NOT decide that later operations behave as if the failed call had never been made, nor absence of hangs (see C08).",
 		Assumptions: []string{"io.ReaderAt/io.WriterAt contract: a short read/write returns a non-nil error", "nodes cached in a handle are never evicted (only items are)"},
 		ControlSrc:  controlC07,
